@@ -177,7 +177,7 @@ class PSFModelMachine(Machine):
             if self.variant == 'gridded':
                 names += ['oversampling', 'oversampling']
             else:
-                names += ['origin']
+                names += ['origin', 'oversampling']
             nm = rng.pick(names)
             if nm == 'fill_value':
                 val = rng.pick([0.0, None, -1.0, 2.5, 0, -999])
@@ -408,12 +408,16 @@ class PSFModelMachine(Machine):
             return
         if kind == 'setattr':
             nm, v = op['name'], op['value']
-            if nm == 'oversampling' and self.variant != 'gridded':
-                raise Inapplicable(nm)
+
             if nm == 'origin' and self.variant != 'image':
                 raise Inapplicable(nm)
             a.a = dict(a.a)
-            if nm == 'oversampling':
+            if nm == 'oversampling' and self.variant == 'image':
+                # a plain attribute of ImagePSF, kept as a (y, x) pair
+                pair = np.array(v if isinstance(v, list) else [v, v])
+                out = call(setattr, m, 'oversampling', pair)
+                a.a['ovs'] = [int(pair[0]), int(pair[1])]
+            elif nm == 'oversampling':
                 out = call(setattr, m, 'oversampling',
                            tuple(v) if isinstance(v, list) else v)
                 a.a['ovs'] = list(v) if isinstance(v, list) else [v, v]
